@@ -8,6 +8,7 @@ import (
 	"io"
 	"net"
 	"strings"
+	"sync"
 	"testing"
 	"time"
 
@@ -25,18 +26,18 @@ type memConn struct {
 	r, w *halfPipe
 }
 
-func (c *memConn) Read(p []byte) (int, error)                  { return c.r.Read(p) }
-func (c *memConn) Write(p []byte) (int, error)                 { return c.w.Write(p) }
-func (c *memConn) Close() error                                { c.w.Close(); return nil }
-func (c *memConn) LocalAddr() net.Addr                         { return memAddr{} }
-func (c *memConn) RemoteAddr() net.Addr                        { return memAddr{} }
-func (c *memConn) SetDeadline(time.Time) error                 { return nil }
-func (c *memConn) SetReadDeadline(time.Time) error             { return nil }
-func (c *memConn) SetWriteDeadline(time.Time) error            { return nil }
-func (c *memConn) ReceiveControlMsg(mailbox.ControlMsg) error  { return nil }
-func (c *memConn) SendControlMsg(mailbox.ControlMsg) error     { return nil }
-func (c *memConn) SetRecvTimeout(time.Duration)                {}
-func (c *memConn) SetSendTimeout(time.Duration)                {}
+func (c *memConn) Read(p []byte) (int, error)                 { return c.r.Read(p) }
+func (c *memConn) Write(p []byte) (int, error)                { return c.w.Write(p) }
+func (c *memConn) Close() error                               { c.w.Close(); return nil }
+func (c *memConn) LocalAddr() net.Addr                        { return memAddr{} }
+func (c *memConn) RemoteAddr() net.Addr                       { return memAddr{} }
+func (c *memConn) SetDeadline(time.Time) error                { return nil }
+func (c *memConn) SetReadDeadline(time.Time) error            { return nil }
+func (c *memConn) SetWriteDeadline(time.Time) error           { return nil }
+func (c *memConn) ReceiveControlMsg(mailbox.ControlMsg) error { return nil }
+func (c *memConn) SendControlMsg(mailbox.ControlMsg) error    { return nil }
+func (c *memConn) SetRecvTimeout(time.Duration)               {}
+func (c *memConn) SetSendTimeout(time.Duration)               {}
 
 var _ mailbox.ProxyConn = (*memConn)(nil)
 
@@ -289,6 +290,114 @@ func TestGenC15(t *testing.T) {
 			q.sample(fmt.Sprintf("%s writes=%v bufs=%v -> n=%v", kind, writes, bufs, ns))
 		}
 	}
+	duplexCases(q, r, scale(12, 200), "c15:full-duplex")
+}
+
+// duplexCases: both endpoints write and read at the same time over a transport whose Write, like net.Pipe,
+// hands the bytes over only when the peer reads (so an endpoint's pending output sits in its own buffers
+// while its reader is at work). Each direction's bytes must arrive intact.
+func duplexCases(q *oracle, r *rng, n int, key string) {
+	for i := 0; i < n; i++ {
+		rr := r.sub(7000 + i)
+		kind := []string{"grpc", "tcp"}[i%2]
+		var a, b net.Conn
+		var hab, hba *halfPipe
+		if kind == "grpc" {
+			skI, skR := privFromRng(rr), privFromRng(rr)
+			pass := rr.bytes(14)
+			cd := mailbox.NewConnData(keyECDH(skI), nil, pass, nil, nil, nil)
+			sd := mailbox.NewConnData(keyECDH(skR), nil, pass, []byte("macaroon"), nil, nil)
+			ca, cb, ab, ba := memPair()
+			hab, hba = ab, ba
+			errc := make(chan error, 1)
+			go func() {
+				var e error
+				b, _, e = mailbox.NewNoiseGrpcConn(sd).ServerHandshake(cb)
+				errc <- e
+			}()
+			var err error
+			a, _, err = mailbox.NewNoiseGrpcConn(cd).ClientHandshake(context.Background(), "", ca)
+			if e := <-errc; err != nil || e != nil {
+				q.fail(key+":handshake", fmt.Sprintf("duplex: %v %v", err, e))
+				continue
+			}
+		} else {
+			x, y, ab, ba, err := tcpPair(rr.sub(5))
+			if err != nil {
+				q.fail("c15:handshake", err.Error())
+				continue
+			}
+			a, b, hab, hba = x, y, ab, ba
+		}
+		hab.mu.Lock()
+		hab.lazy = true
+		hab.mu.Unlock()
+		hba.mu.Lock()
+		hba.lazy = true
+		hba.mu.Unlock()
+		var sent, got [2][]byte
+		var errs [2]string
+		var wg sync.WaitGroup
+		conns := [2]net.Conn{a, b}
+		nmsg := 2 + rr.intn(4)
+		totals := [2]int{}
+		var msgs [2][][]byte
+		for x := 0; x < 2; x++ {
+			for k := 0; k < nmsg; k++ {
+				m := rr.bytes(rr.pick([]int{1, 3, 100, 4096, 40000}))
+				msgs[x] = append(msgs[x], m)
+				totals[x] += len(m)
+			}
+		}
+		for x := 0; x < 2; x++ {
+			x := x
+			wg.Add(2)
+			go func() { // writer
+				defer wg.Done()
+				for _, m := range msgs[x] {
+					nw, err := conns[x].Write(m)
+					sent[x] = append(sent[x], m[:nw]...)
+					if err != nil {
+						errs[x] += "write:" + err.Error() + ";"
+						return
+					}
+				}
+			}()
+			go func() { // reader of the other direction, starting a little later on one side
+				defer wg.Done()
+				if x == 1 {
+					time.Sleep(30 * time.Millisecond)
+				}
+				buf := make([]byte, 8192)
+				for len(got[x]) < totals[1-x] {
+					nr, err := conns[x].Read(buf)
+					got[x] = append(got[x], buf[:nr]...)
+					if err != nil {
+						errs[x] += "read:" + err.Error() + ";"
+						return
+					}
+				}
+			}()
+		}
+		done := make(chan struct{})
+		go func() { wg.Wait(); close(done) }()
+		select {
+		case <-done:
+		case <-time.After(10 * time.Second):
+			hab.Close()
+			hba.Close()
+			<-done
+			errs[0] += "stalled;"
+		}
+		ok := errs[0] == "" && errs[1] == "" && bytes.Equal(got[1], sent[0]) && bytes.Equal(got[0], sent[1])
+		q.check(ok, key+":"+kind, func() string {
+			return fmt.Sprintf("duplex case %d (%s): %d messages each way over a hand-over transport: errors [%q | %q], a->b %d/%d bytes, b->a %d/%d bytes",
+				i, kind, nmsg, errs[0], errs[1], len(got[1]), len(sent[0]), len(got[0]), len(sent[1]))
+		})
+		q.stat("duplex_cases", 1)
+		hab.Close()
+		hba.Close()
+	}
 }
 
 func safeRead(rd io.Reader, buf []byte) (n int, err error) {
@@ -309,6 +418,36 @@ type limitWriter struct {
 }
 
 var errTimeout = errors.New("i/o timeout")
+
+// cutConn accepts `cut` bytes in total, reports a timeout on the Write that crosses that point (taking the
+// bytes up to it), and accepts everything afterwards.
+type cutConn struct {
+	memConn
+	cut   int
+	fired bool
+	out   []byte
+}
+
+func (c *cutConn) Write(p []byte) (int, error) {
+	if !c.fired && len(c.out)+len(p) > c.cut {
+		c.fired = true
+		n := c.cut - len(c.out)
+		if n < 0 {
+			n = 0
+		}
+		c.out = append(c.out, p[:n]...)
+		return n, errTimeout
+	}
+	c.out = append(c.out, p...)
+	return len(p), nil
+}
+
+type readConn struct {
+	memConn
+	r io.Reader
+}
+
+func (c *readConn) Read(p []byte) (int, error) { return c.r.Read(p) }
 
 func (w *limitWriter) Write(p []byte) (int, error) {
 	lim := len(p)
@@ -405,6 +544,7 @@ func TestGenC16(t *testing.T) {
 	}
 	sk, ss, _, _, _, _ := p.init.VerifCipherKeys()
 	ref := &refCipher{key: sk, salt: ss}
+	interleave := false // while a flush is pending, the same endpoint reads a record of the other direction
 	flushCase := func(plen int, limits []int) {
 		pl := r.bytes(plen)
 		want := ref.record(pl)
@@ -442,6 +582,17 @@ func TestGenC16(t *testing.T) {
 			if err == nil {
 				break
 			}
+			if interleave {
+				msg := r.bytes(1 + r.intn(40))
+				var back bytes.Buffer
+				e1 := p.resp.WriteMessage(msg)
+				_, e2 := p.resp.Flush(&back)
+				got, e3 := p.init.ReadMessage(&back)
+				q.check(e1 == nil && e2 == nil && e3 == nil && bytes.Equal(got, msg), "c16:read-while-flush-pending", func() string {
+					return fmt.Sprintf("payload %d limits %v: reading the peer's record while a flush is pending: %v %v %v", plen, limits, e1, e2, e3)
+				})
+				q.stat("reads_during_pending_flush", 1)
+			}
 		}
 		o.line("FL %d | %s", plen, strings.Join(calls, " "))
 		q.check(okSeq && bytes.Equal(w.out, want) && total == plen, "c16:flush", func() string {
@@ -456,6 +607,9 @@ func TestGenC16(t *testing.T) {
 		// all two-way and three-way splits of the record's wire bytes
 		for a := 0; a <= total; a++ {
 			flushCase(plen, splitLimits(plen, []int{a}))
+			interleave = true
+			flushCase(plen, splitLimits(plen, []int{a}))
+			interleave = false
 			if !thorough() && a%3 != 0 {
 				continue
 			}
@@ -471,6 +625,58 @@ func TestGenC16(t *testing.T) {
 			lim = append(lim, r.intn(40))
 		}
 		flushCase(plen, lim)
+	}
+	// (3) NoiseConn.Write of more than one record with a write timeout somewhere in the wire stream: the count it
+	// returns is the number of plaintext bytes the connection has taken responsibility for, so flushing what is
+	// pending and resubmitting b[count:] must give the peer exactly b
+	for i := 0; i < scale(40, 600); i++ {
+		rr := r.sub(880000 + i)
+		pp := newMachinePair(rr.sub(1), pairCfg{minI: 0, maxI: 2, minR: 0, maxR: 2})
+		if pp.errI != nil || pp.errR != nil {
+			q.fail("c16:handshake", fmt.Sprintf("%v %v", pp.errI, pp.errR))
+			continue
+		}
+		size := rr.pick([]int{65536, 65537, 70535, 131070, 131071, 140000})
+		b := rr.bytes(size)
+		// the timeout strikes after `cut` wire bytes (one limit per Write call of Flush: header, body)
+		cut := rr.intn(size + 200)
+		if rr.chance(1, 3) {
+			cut = 65535 + 34 + rr.pick([]int{0, 1, 17, 18, 19, 2000}) // inside the second record
+		}
+		lc := &cutConn{cut: cut}
+		nc := mailbox.VerifNewNoiseConn(lc, pp.init)
+		total, err := nc.Write(b)
+		steps := fmt.Sprintf("Write(%d)=%d,%v", size, total, err != nil)
+		for k := 0; err != nil && k < 6; k++ {
+			var n int
+			n, err = nc.Flush()
+			total += n
+			steps += fmt.Sprintf(" Flush=%d,%v", n, err != nil)
+		}
+		if err == nil && total < size && total >= 0 {
+			var n int
+			n, err = nc.Write(b[total:])
+			steps += fmt.Sprintf(" Write(rest %d)=%d,%v", size-total, n, err != nil)
+			total += n
+		}
+		// what the peer reads from the wire
+		rd := mailbox.VerifNewNoiseConn(&readConn{r: bytes.NewReader(lc.out)}, pp.resp)
+		got := make([]byte, 0, size)
+		buf := make([]byte, 65536)
+		var rerr error
+		for len(got) < size+10 {
+			n, e := rd.Read(buf)
+			got = append(got, buf[:n]...)
+			if e != nil {
+				rerr = e
+				break
+			}
+		}
+		q.check(err == nil && total == size && bytes.Equal(got, b), "c16:multi-record-write-count", func() string {
+			return fmt.Sprintf("Write of %d bytes, timeout after %d wire bytes: %s; total reported %d; the peer read %d bytes (equal=%v, read error %v)",
+				size, cut, steps, total, len(got), bytes.Equal(got, b), rerr)
+		})
+		q.stat("multi_record_write_cases", 1)
 	}
 	q.sample("flush: payload sizes {0,1,15,16,17,100} x all two-way and (sampled) three-way splits of header+body, plus random finer partitions")
 }
